@@ -491,10 +491,23 @@ func sigString(fn *ssa.Function) string { return fn.Signature.String() }
 func (f *Facts) resolveAnchors(p *Prog) {
 	specs := []anchorSpec{
 		{"replayEvents", func(p *Prog, fn *ssa.Function) string {
-			if len(eventTypeCases(fn)) < 5 {
-				return "does not contain the switch over Event.Type"
+			// the switch may live in a dispatch function the fold calls (replayEvents -> (*Graph).applyEvent)
+			seen := map[*ssa.Function]bool{fn: true}
+			work := []*ssa.Function{fn}
+			for d := 0; len(work) > 0 && d < 64; d++ {
+				g := work[0]
+				work = work[1:]
+				if len(eventTypeCases(g)) >= 5 {
+					return ""
+				}
+				for _, call := range callsIn(g) {
+					if cal := call.Common().StaticCallee(); cal != nil && p.InModule(cal) && cal.Blocks != nil && !seen[cal] && len(p.callers[cal]) == 1 {
+						seen[cal] = true
+						work = append(work, cal)
+					}
+				}
 			}
-			return ""
+			return "does not contain the switch over Event.Type"
 		}},
 		{"compactEvents", func(p *Prog, fn *ssa.Function) string {
 			if len(callsTo(fn, p.ErgoFn("newEvent"))) < 3 {
